@@ -44,8 +44,9 @@ Definition inv (st : sst) : Prop := Forall (fun c => 0 <= c <= 255) (cnt st) /\ 
 (* the bound in closed form, R = number of (order, row) cells *)
 Definition bound (R : Z) : Z := 514 * 255 * R + 513 + 1.
 
-(* a new call of scan_module (one per sequence): the visit counters carry over, the loop state starts afresh *)
-Definition restart (st : sst) : sst := {| cnt := cnt st; osl := 0; stopped := false |}.
+(* a new call of scan_module (one per sequence, plus the VBlank/CIA comparison rescan): the call clears the visit counters
+   (scan.c:94-98) and the loop state starts afresh *)
+Definition restart (st : sst) : sst := {| cnt := map (fun _ => 0) (cnt st); osl := 0; stopped := false |}.
 
 (* replaying a logged trace: every ERow / EDelay event carries the counter value the C reports after the update *)
 Fixpoint replay (st : sst) (evs : list (sev * Z)) : bool :=
